@@ -7,7 +7,7 @@ CONSTANTS
   Lits <- LitsFew
   PosDom <- Pos2q
   SubDom <- SubFewer
-  Targets = {1, 2}
+  Targets = {1}
   OtherInit <- NoOther
   Classes <- AllClassesOv
   EmitOps <- NoEmit
